@@ -73,5 +73,145 @@ theorem loadStations_full {cat : Catalogue} (rows : List StationRow) {b b' : Lis
     · cases h
     · next b1 h1 => exact ih (addRow_full hf h1) h
 
+/-- installed plugs of type `c` at station `sid` in a builder -/
+def plugTotal (b : List Station) (sid : StationId) (c : ChargerId) : Nat :=
+  match lookup Station.id b sid with
+  | some st => (match st.plug? c with | some cs => cs.total | none => 0)
+  | none => 0
+
+theorem lookup_append_fresh {α : Type} {key : α → Nat} {xs : List α} {x : α} (h : lookup key xs (key x) = none) (i : Nat) :
+    lookup key (xs ++ [x]) i = if i = key x then some x else lookup key xs i := by
+  unfold lookup at *
+  rw [List.find?_append]
+  by_cases hi : i = key x
+  · subst hi
+    rw [h]
+    simp
+  · simp only [hi, if_false]
+    cases hf : xs.find? (fun y => key y == i) with
+    | some y => simp
+    | none =>
+      have : (key x == i) = false := by simpa using fun e => hi e.symm
+      simp [this]
+
+theorem plugTotal_addRow {cat : Catalogue} {b b' : List Station} {r : StationRow} (h : addRow cat b r = some b')
+    (sid : StationId) (c : ChargerId) :
+    plugTotal b' sid c = plugTotal b sid c + (if r.sid = sid ∧ r.chg = c then r.count else 0) := by
+  unfold addRow at h
+  split at h
+  · next hnone =>
+    split at h
+    · cases h
+    · next spec _ =>
+      cases h
+      unfold plugTotal
+      have hk : lookup Station.id b (Station.id
+          { id := r.sid, pos := r.pos, members := [], plugs := [buildPlug r.chg spec r.count],
+            onShift := if r.onShift then [r.chg] else [], balance := 0, dispE := 0, dispG := 0 }) = none := hnone
+      rw [lookup_append_fresh hk sid]
+      by_cases hs : sid = r.sid
+      · subst hs
+        simp only [if_true, hnone]
+        unfold Station.plug?
+        by_cases hc : r.chg = c
+        · subst hc
+          simp [lookup, buildPlug]
+        · have : (r.chg == c) = false := by simpa using hc
+          simp [lookup, buildPlug, this, hc]
+      · have hs' : ¬ r.sid = sid := fun e => hs e.symm
+        simp [hs, hs']
+  · next st hst =>
+    split at h
+    · cases h
+    · next st' happ =>
+      cases h
+      have hsid : st.id = r.sid := (lookup_some hst).2
+      -- the appended station
+      have hst'id : st'.id = st.id := by
+        unfold appendChargers at happ
+        split at happ
+        · cases happ; rfl
+        · split at happ
+          · cases happ
+          · cases happ; rfl
+      unfold plugTotal
+      by_cases hs : sid = r.sid
+      · subst hs
+        have hself : lookup Station.id b (Station.id st') = some st := by rw [hst'id, hsid]; exact hst
+        have := lookup_replaceById_self hself
+        rw [hst'id, hsid] at this
+        rw [this, hst]
+        simp only [true_and]
+        -- plugs of st' versus st
+        unfold appendChargers at happ
+        split at happ
+        · next cs hcs =>
+          cases happ
+          unfold Station.plug? Station.setPlug at *
+          simp only
+          have hcid : cs.id = r.chg := (lookup_some hcs).2
+          by_cases hc : r.chg = c
+          · subst hc
+            have hl : lookup ChargerState.id st.plugs (addChargers cs r.count).id = some cs := by
+              show lookup ChargerState.id st.plugs cs.id = some cs
+              rw [hcid]; exact hcs
+            have := lookup_replaceById_self hl
+            have e : (addChargers cs r.count).id = r.chg := hcid
+            rw [e] at this
+            rw [this, hcs]
+            simp [addChargers]
+          · have hne : c ≠ (addChargers cs r.count).id := by
+              show c ≠ cs.id
+              rw [hcid]; exact fun e => hc e.symm
+            rw [lookup_replaceById_ne _ _ hne]
+            simp [hc]
+        · next hnone =>
+          split at happ
+          · cases happ
+          · next spec _ =>
+            cases happ
+            unfold Station.plug? at *
+            simp only
+            have hk : lookup ChargerState.id st.plugs (buildPlug r.chg spec r.count).id = none := hnone
+            rw [lookup_append_fresh hk c]
+            by_cases hc : c = r.chg
+            · have hn : lookup ChargerState.id st.plugs c = none := by rw [hc]; exact hnone
+              have hc2 : r.chg = c := hc.symm
+              have hid : c = (buildPlug r.chg spec r.count).id := hc
+              rw [if_pos hid, hn]
+              simp [buildPlug, hc2]
+            · have hc' : ¬ r.chg = c := fun e => hc e.symm
+              have : ¬ c = (buildPlug r.chg spec r.count).id := hc
+              simp [this, hc']
+      · have hne : sid ≠ Station.id st' := by rw [hst'id, hsid]; exact hs
+        rw [lookup_replaceById_ne _ _ hne]
+        have hs' : ¬ r.sid = sid := fun e => hs e.symm
+        simp [hs']
+
+/-- **what is installed is what the file lists**: after loading, the number of plugs of each type
+    at each station is the sum of the counts of the rows naming that station and type -/
+theorem loadStations_installed {cat : Catalogue} (rows : List StationRow) {b b' : List Station}
+    (h : loadStations cat rows b = some b') (sid : StationId) (c : ChargerId) :
+    plugTotal b' sid c = plugTotal b sid c + installed rows sid c := by
+  induction rows generalizing b with
+  | nil => cases h; simp [installed]
+  | cons r rs ih =>
+    unfold loadStations at h
+    split at h
+    · cases h
+    · next b1 h1 =>
+      rw [ih h, plugTotal_addRow h1 sid c]
+      unfold installed
+      simp only [List.filter_cons]
+      by_cases hm : r.sid = sid ∧ r.chg = c
+      · have : (r.sid == sid && r.chg == c) = true := by simp [hm.1, hm.2]
+        simp [this, hm, Nat.add_assoc]
+      · have : (r.sid == sid && r.chg == c) = false := by
+          simp only [Bool.and_eq_false_iff, beq_eq_false_iff_ne, ne_eq]
+          by_cases h1 : r.sid = sid
+          · right; exact fun h2 => hm ⟨h1, h2⟩
+          · left; exact h1
+        simp [this, hm]
+
 end Layout
 end Hive
